@@ -70,3 +70,61 @@ def nodes_calling(db: ProgramDB, cfg: CFG, names: set[str]) -> list[N]:
 
 def template_methods(db: ProgramDB, name: str) -> list[FuncInfo]:
     return [c.methods[name] for c in template_classes(db) if name in c.methods]
+
+
+# ---------------------------------------------------------------------------
+# E7 ordering evaluator: truth table of a comparison over two symbolic integers
+# ---------------------------------------------------------------------------
+
+
+class NotComparable(Exception):
+    pass
+
+
+def _ev(e: ast.AST, env: dict[str, int]):
+    if isinstance(e, ast.Constant) and isinstance(e.value, (int, bool)):
+        return e.value
+    if isinstance(e, ast.Name):
+        if e.id in env:
+            return env[e.id]
+        raise NotComparable(e.id)
+    if isinstance(e, ast.UnaryOp) and isinstance(e.op, ast.Not):
+        return not _ev(e.operand, env)
+    if isinstance(e, ast.BoolOp):
+        vals = [_ev(v, env) for v in e.values]
+        return all(vals) if isinstance(e.op, ast.And) else any(vals)
+    if isinstance(e, ast.Compare):
+        left = _ev(e.left, env)
+        for op, c in zip(e.ops, e.comparators):
+            right = _ev(c, env)
+            if isinstance(op, ast.Lt):
+                r = left < right
+            elif isinstance(op, ast.LtE):
+                r = left <= right
+            elif isinstance(op, ast.Gt):
+                r = left > right
+            elif isinstance(op, ast.GtE):
+                r = left >= right
+            elif isinstance(op, ast.Eq):
+                r = left == right
+            elif isinstance(op, ast.NotEq):
+                r = left != right
+            else:
+                raise NotComparable(type(op).__name__)
+            if not r:
+                return False
+            left = right
+        return True
+    if isinstance(e, ast.BinOp) and isinstance(e.op, (ast.Add, ast.Sub)):
+        a, b = _ev(e.left, env), _ev(e.right, env)
+        return a + b if isinstance(e.op, ast.Add) else a - b
+    raise NotComparable(type(e).__name__)
+
+
+def ordering_table(test: ast.AST, a: str, b: str) -> dict[str, bool]:
+    """Truth of ``test`` under a<b, a==b, a>b (a, b symbolic integers)."""
+    return {
+        "lt": bool(_ev(test, {a: 1, b: 2})),
+        "eq": bool(_ev(test, {a: 2, b: 2})),
+        "gt": bool(_ev(test, {a: 3, b: 2})),
+    }
